@@ -1,6 +1,22 @@
 import Hannibal.Monitor.Basic
 /-
   C02 — calls return their own handler's result, and every operation resolves.
+
+  `monC02orig` : the property as first written (one automaton).
+  `monC02`     : the part proved of the model (`Props/C02.lean`): no operation returns twice; (a) an Ok reply is
+                 the one produced by the completed handler invocation for the call's own message; (c) operations
+                 begun after termination complete with an error (awaits: with the termination result, where a
+                 *failed* termination gives an error); (d) at quiescence nothing is pending except awaiting /
+                 joining a live actor.
+  `monC02t`    : trace-only remainder of (c): an await begun after a termination that followed a completed
+                 `stopped` callback returns Ok.  (The model lets `cancel` strike between the end of `stopped`
+                 and the end of the task, see the witness in `Props/C02.lean`.)
+  `monC02orig` rejects a trace iff `monC02` or `monC02t` does (`Proofs/C02Split.lean`, `monC02_split`).
+  `monC02nc`   : not part of the property: the executor-level assumption ("no `cancel` between the end of
+                 `stopped` and the next callback / the end of the task") under which `monC02t` is proved too.
+  `monC02wf`   : trace well-formedness assumed by the theorem: every `begin` carries an operation id that no
+                 earlier `begin` of the trace carried (the model alone would let an id be reused after its
+                 `ret` / `cdrop`; real traces number their operations consecutively).
 -/
 namespace Hannibal
 
@@ -12,8 +28,11 @@ structure C02St where
   graceful : Bool
   deriving Repr, DecidableEq
 
-def monC02 (_c : MonCtx) : Mon C02St where
-  init := { ops := [], returned := [], finishedOk := [], terminated := false, graceful := false }
+def C02St.init : C02St :=
+  { ops := [], returned := [], finishedOk := [], terminated := false, graceful := false }
+
+def monC02orig (_c : MonCtx) : Mon C02St where
+  init := C02St.init
   step st l :=
     match l with
     | .begin o _ k => some { st with ops := (o, (k, st.terminated)) :: st.ops }
@@ -46,5 +65,86 @@ def monC02 (_c : MonCtx) : Mon C02St where
           | none => true)
       then some st else none
     | l => if l.terminates then some { st with terminated := true } else some st
+
+/-- state update shared by all three automata -/
+def next02 (st : C02St) : Label → C02St
+  | .begin o _ k => { st with ops := (o, (k, st.terminated)) :: st.ops }
+  | .cbEnd (.handle m) true => { st with finishedOk := m :: st.finishedOk }
+  | .cbEnd .stopped true => { st with graceful := true }
+  | .cbBegin _ => { st with graceful := false }
+  | .ret o _ => { st with returned := o :: st.returned }
+  | .quiescent _ => st
+  | l => if l.terminates then { st with terminated := true } else st
+
+/-- (a) an Ok reply is the one produced by the handler invocation for its own message -/
+def replyOk (finishedOk : List Nat) (k : OpKind) (r : Res) : Bool :=
+  match r, k.msg? with
+  | .okReply rep, some m => rep.m == m && finishedOk.contains m && k.isCall
+  | .okReply _, none => false
+  | _, _ => true
+
+/-- (c), proved part: what an operation begun after termination may return -/
+def lateOk (graceful : Bool) (k : OpKind) (r : Res) : Bool :=
+  match k with
+  | .await => if graceful then (r == .ok || r.isErr) else r.isErr
+  | .join => r == .none || (match r with | .some _ => true | _ => false)
+  | _ => r.isErr
+
+/-- (d) what may be pending at quiescence -/
+def pendOk (terminated : Bool) (k : OpKind) : Bool :=
+  !terminated && (match k with | .await | .join => true | _ => false)
+
+def bad02 (st : C02St) : Label → Bool
+  | .ret o r =>
+    st.returned.contains o ||
+      (match lookup o st.ops with
+       | none => false
+       | some (k, late) => !(replyOk st.finishedOk k r && (!late || lateOk st.graceful k r)))
+  | .quiescent pend =>
+    !pend.all (fun o => match lookup o st.ops with
+      | some (k, _) => pendOk st.terminated k
+      | none => true)
+  | _ => false
+
+def monC02 (_c : MonCtx) : Mon C02St where
+  init := C02St.init
+  step st l := if bad02 st l then none else some (next02 st l)
+
+/-- (c), trace-only part: an await begun after a termination that followed a completed `stopped` gets Ok -/
+def bad02t (st : C02St) : Label → Bool
+  | .ret o r =>
+    (match lookup o st.ops with
+     | some (.await, true) => st.graceful && r != .ok
+     | _ => false)
+  | _ => false
+
+def monC02t (_c : MonCtx) : Mon C02St where
+  init := C02St.init
+  step st l := if bad02t st l then none else some (next02 st l)
+
+/-- well-formedness of a trace: operation ids of `begin` labels are pairwise distinct -/
+def monC02wf (_c : MonCtx) : Mon (List Nat) where
+  init := []
+  step seen l :=
+    match l with
+    | .begin o _ _ => if seen.contains o then none else some (o :: seen)
+    | _ => some seen
+
+/-- every `begin` of the trace carries a fresh operation id -/
+def opIdsFresh (ls : List Label) : Bool := (monC02wf default).ok ls
+
+/-- executor-level assumption under which the trace-only clause `monC02t` holds of the model as well: the
+    loop task is not cancelled between the return of its `stopped` callback and its next callback / its end
+    (the loop future has no suspension point there).  State: `stopped` completed and no callback began since. -/
+def monC02nc (_c : MonCtx) : Mon Bool where
+  init := false
+  step g l :=
+    match l with
+    | .cancel => if g then none else some g
+    | .cbEnd .stopped true => some true
+    | .cbBegin _ => some false
+    | _ => some g
+
+def noCancelAfterStopped (ls : List Label) : Bool := (monC02nc default).ok ls
 
 end Hannibal
